@@ -885,8 +885,24 @@ class element_sql:
     params = {'self': 'Union[Table,Column,Enum,Reference,Index,EnumItem,Note,Expression]'}
     pure = True
     ret = 'str'
-    # the element renderer's refusals of a degenerate element (C17) propagate
-    allowed = ('AttributeMissingError', 'TableNotFoundError', 'DBMLError', 'UnknownDatabaseError', 'IndexError')
+    # the element renderer's refusals of a degenerate element (C17) propagate — from the kinds of element that can be
+    # degenerate: a note and an expression have no required attribute, and neither they nor an enum item have a link to resolve, so
+    # rendering them refuses nothing (this is what keeps `table.note.sql` inside SQL render_table exception-free)
+
+    def maybe_AttributeMissingError(self):
+        return not isinstance(self, Note) and not isinstance(self, Expression)      # an enum item requires its name
+
+    def maybe_TableNotFoundError(self):
+        return not isinstance(self, Note) and not isinstance(self, Expression) and not isinstance(self, EnumItem)
+
+    def maybe_DBMLError(self):
+        return not isinstance(self, Note) and not isinstance(self, Expression) and not isinstance(self, EnumItem)
+
+    def maybe_UnknownDatabaseError(self):
+        return not isinstance(self, Note) and not isinstance(self, Expression) and not isinstance(self, EnumItem)
+
+    def maybe_IndexError(self):
+        return not isinstance(self, Note) and not isinstance(self, Expression) and not isinstance(self, EnumItem)
 
     def requires_renderable_when_detached(self):
         return owner_database(self) is not None or renderable(self)
